@@ -91,6 +91,16 @@ VERUS_UNITS["alg_semiring"] = {
     "twins": [],
 }
 
+VERUS_UNITS["uf_dfir"] = {
+    "template": "contracts/verus/uf_dfir.rs.in", "props": ["C17"],
+    "what": "dfir_lang::union_find::UnionFind: find (recursive, path compression; termination proved), union, same_set, with_capacity against the "
+            "partition model x -> representative, over a trusted finite-map contract of slotmap::SecondaryMap",
+    "canaries": [(r"self\.links\[j\] = i;", "self.links[i] = j;", "union"),
+                 (r"self\.find\(a\) == self\.find\(b\)", "self.find(a) != self.find(b)", "same_set"),
+                 (r"if k == next \{\s*return k;\s*\}", "", "find")],
+    "twins": [],
+}
+
 VERUS_UNITS["alg_compose"] = {
     "template": "contracts/verus/alg_compose.rs.in", "props": ["C09"],
     "what": "algebra.rs composite law checkers (semigroup .. field): Ok iff every law of the named structure holds, for every carrier type, "
@@ -161,7 +171,7 @@ KANI_UNITS["vk_var"] = {
     "mode": "dep", "crate": "contracts/kani/vk_var", "props": ["C10"],
     "what": "variadics::VariadicColumnMultiset (real crate) against a multiset-of-tuples oracle",
     "instantiation": "schema var_type!(u8, u8)",
-    "bounded": {r".*": "<= 3 inserted tuples (Vec columns)"},
+    "bounded": {r"column_": "<= 3 inserted tuples (Vec columns)", r"slow_": "ONE inserted tuple, constant hasher (hashbrown table)"},
 }
 
 KANI_UNITS["vk_sim"] = {
@@ -228,7 +238,8 @@ PROPS["C13"] = [("kani", "ov_pipes", ["symmetric_hash_join"], ("quick", "thoroug
 
 # C17 NOT registered: see mkmanifest NOT_APPLICABLE (vk_uf kept for reference; every harness times out at 1200 s)
 
-PROPS["C10"] = [("kani", "vk_var", ["harness::"], ("quick", "thorough"))]
+PROPS["C10"] = [("kani", "vk_var", ["harness::column_"], ("quick",)),
+                ("kani", "vk_var", ["harness::"], ("thorough",))]
 
 PROPS["C05"] = [("kani", "vk_lat", ["coll3::tombstone_set", "coll3::tombstone_map_merge_one_entry"], ("quick",)),
                 ("kani", "vk_lat", ["coll3::tombstone"], ("thorough",))]
@@ -239,10 +250,12 @@ PROPS["C07"] = [("verus", "lat_pair"),
                 ("kani", "vk_lat", ["coll3::cartesian", "coll3::keyed"], ("thorough",))]
 
 # quick: every harness under ~60 s; thorough adds the `slow_` ones (MergeOrderedHook with two non-empty inputs, TopLevelFoldHook with 2 items)
+PROPS["C17"] = [("verus", "uf_dfir")]
+
 PROPS["C36"] = [("kani", "vk_sim", ["harness::run_hooks", "harness::stream_", "harness::release_", "harness::singleton_", "harness::passthrough_",
                                     "harness::top_level_", "harness::merge_ordered_inline_0_2"], ("quick",)),
                 ("kani", "vk_sim", ["::harness"], ("thorough",))]
 
 LEVEL = {
-    "C01": "other", "C02": "other", "C03": "other", "C04": "other", "C09": "other", "C36": "other", "C05": "other", "C06": "other", "C07": "other", "C15": "other", "C11": "other", "C12": "other", "C14": "other", "C13": "other", "C10": "other",
+    "C01": "other", "C02": "other", "C03": "other", "C04": "other", "C09": "other", "C36": "other", "C17": "other", "C05": "other", "C06": "other", "C07": "other", "C15": "other", "C11": "other", "C12": "other", "C14": "other", "C13": "other", "C10": "other",
 }
